@@ -566,12 +566,15 @@ class PixelAperture(Aperture):
                 # ignore multiplication with non-finite data values
                 warnings.simplefilter('ignore', RuntimeWarning)
 
+                # np.ma.filled: for a MaskedArray input the sum over no
+                # (unmasked) pixels is ``masked`` instead of 0
                 values = (data[slc_large] * aper_weights)[pixel_mask]
-                aperture_sums.append(values.sum())
+                aperture_sums.append(np.ma.filled(values.sum(), 0.0))
 
                 if error is not None:
                     variance = (error[slc_large]**2 * aper_weights)[pixel_mask]
-                    aperture_sum_errs.append(np.sqrt(variance.sum()))
+                    aperture_sum_errs.append(
+                        np.sqrt(np.ma.filled(variance.sum(), 0.0)))
 
         aperture_sums = np.array(aperture_sums)
         aperture_sum_errs = np.array(aperture_sum_errs)
